@@ -30,7 +30,7 @@ def _judge(ctx, name, vecs):
     if not vecs:
         return [], 0, 0, 0
     n = min(SHARDS, max(1, len(vecs) // 50))
-    vecs = [dict(v, id=i) for i, v in enumerate(vecs)]     # ids unique over the sources
+    vecs = [dict(v, id=i, oid=v["id"]) for i, v in enumerate(vecs)]     # ids unique over the sources
     # balance by size: biggest first, round robin
     order = sorted(range(len(vecs)), key=lambda i: -len(json.dumps(vecs[i])))
     shards = [[] for _ in range(n)]
@@ -178,6 +178,7 @@ def run(ctx):
         unjudged += skipped
         chosen += sel
     judged = len(chosen)
+    chosen = [dict(v, oid=v["id"]) for v in chosen]
     allmon, undecided, st, tr = _judge(ctx, "all", chosen)
     states += st
     trans += tr
@@ -227,7 +228,7 @@ def run(ctx):
                              "(allocation from untrusted lengths is property C05's subject)" % (alg, summ[alg]["skipped_huge_declared"]))
 
     # ---- 4. binding probe: falsified real vectors must be rejected
-    _probe(ctx, vec)
+    _probe(ctx, vec, {(v["src"], v["oid"]) for v in chosen}, {(m["vec"]["src"], m["vec"]["oid"]) for m in allmon})
 
     # ---- evidence
     def nontrivial(v):
@@ -271,12 +272,14 @@ def run(ctx):
     ]
 
 
-def _probe(ctx, vec):
+def _probe(ctx, vec, judged_ids, bad_ids):
     """Binding probe: real vectors with ONE field falsified must be rejected by TLC (and the originals must not be)."""
-    e = next((v for v in vec["snappy"] if v["k"] == "enc" and len(v["body"]) == 16 and not v["err"] and not v["panic"]), None)
-    f = next((v for v in vec["frames"] if v["flags"] % 2 == 1 and not v["panic"] and v["op"] not in (1, 5)), None)
-    w = next((v for v in vec["wire"] if v["op"] == 1 and v["startup"] != "" and v["flags"] % 2 == 0), None)
-    r = next((v for v in vec["resp"] if v["flag"] and v["negotiated"] == "" and v["outcome"] == "error"), None)
+    def clean(v):       # judged by TLC in the main pass without any complaint
+        return (v["src"], v["id"]) in judged_ids and (v["src"], v["id"]) not in bad_ids
+    e = next((v for v in vec["snappy"] if v["k"] == "enc" and 12 <= len(v["body"]) <= 40 and clean(v)), None)
+    f = next((v for v in vec["frames"] if v["flags"] % 2 == 1 and v["op"] not in (1, 5) and clean(v)), None)
+    w = next((v for v in vec["wire"] if v["op"] == 1 and v["startup"] != "" and v["flags"] % 2 == 0 and clean(v)), None)
+    r = next((v for v in vec["resp"] if v["flag"] and v["negotiated"] == "" and v["outcome"] == "error" and clean(v)), None)
     pairs = []
     if e:
         e2 = json.loads(json.dumps(e)); e2["enc"][-1] = (e2["enc"][-1] + 1) % 256
@@ -291,6 +294,8 @@ def _probe(ctx, vec):
         r2 = json.loads(json.dumps(r)); r2["outcome"] = "value"
         pairs.append((r, r2, "bad-compressed-response-accepted"))
     if len(pairs) < 2:
+        if bad_ids:
+            return      # the code under test misbehaves so broadly that no clean vector is left; the violations stand
         raise vf.Inconclusive("too few vectors to probe the binding with")
     recs = []
     for orig, bad, _ in pairs:
